@@ -4,6 +4,7 @@ import Unimock.Model.ValueChain
 import Unimock.Model.Codegen.Method
 import Unimock.Model.Output
 import Unimock.Model.Codegen.Matching
+import Unimock.Model.Render
 /-!
 # Line protocol: parse scenarios, run them on the model, print the canonical trace
 
@@ -655,5 +656,45 @@ def runMatchCase (toks : List String) : String :=
     let r := Matching.evalIR ir args true
     if r.1 then "-" else ",".intercalate (r.2.map toString))
   s!"un={bits false} ord={bits true} spec={String.ofList ((tuplesOf types).map fun args => if Matching.specAccept inp args then '1' else '0')} diag={diag}"
+
+end Unimock.Driver
+
+namespace Unimock.Driver
+open Unimock.Render
+
+/-! ## message cases (`msgcase` lines, TAB separated): render with the Render model -/
+
+/-- fields: msgcase, id, kind, trait, method, args (`\x1f`-separated, `\x1e` = no Debug), patkind (debug|index|-),
+    src, file, line-or-index, order, extra (message / expected path "T::m" / exact:bound:actual) -/
+def runMsgCase (line : String) : String × String :=
+  let f := (line.splitOn "\t").toArray
+  let get (i : Nat) : String := f.getD i ""
+  let p : Path := ⟨get 3, get 4⟩
+  let args : List (Option String) :=
+    if get 5 == "" then [] else (get 5).splitOn "\x1f" |>.map fun a => if a == "\x1e" then none else some a
+  let pat : PatLoc := if get 6 == "debug" then .debug (get 7) (get 8) ((get 9).toNat?.getD 0) else .index ((get 9).toNat?.getD 0)
+  let order := (get 10).toNat?.getD 0
+  let extra := get 11
+  let msg : Msg := match get 2 with
+    | "NoMockImplementation" => .noMockImplementation p args
+    | "NoMatcherFunction" => .noMatcherFunction p args pat
+    | "NoMatchingCallPatterns" => .noMatchingCallPatterns p args
+    | "NoOutputAvailableForCallPattern" => .noOutputAvailable p args pat
+    | "WrongOrder" =>
+      match extra.splitOn "::" with
+      | [t, m] => .wrongOrder p args ⟨t, m⟩ pat
+      | _ => .wrongOrder p args p pat
+    | "OutOfRange" => .outOfRange p args order
+    | "InputsNotMatchedInCallOrder" => .inputsNotMatched p args order pat
+    | "CannotReturnValueMoreThanOnce" => .cannotReturnTwice p args pat
+    | "ExplicitPanic" => .explicitPanic p args pat extra
+    | "CannotUnmock" => .cannotUnmock p
+    | "NoDefaultImpl" => .noDefaultImpl p
+    | "FailedVerification" =>
+      match extra.splitOn ":" with
+      | [e, b, a] => .failedVerification p pat (e == "exact") (b.toNat?.getD 0) (a.toNat?.getD 0)
+      | _ => .failedVerification p pat true 0 0
+    | _ => .mockNeverCalled p
+  (get 1, render msg)
 
 end Unimock.Driver
